@@ -741,9 +741,12 @@ void check_lr(Case const& k, Shape const& sh)
         }
     }
     // converting constructors that are defined: same layout from other extents; left <-> right for rank <= 1
+    // (precondition of the converting constructors: other.required_span_size() is representable in the new index type)
     using J  = typename partner<I>::type;
     using DJ = etl::dextents<J, R>;
-    {
+    bool const fitsJ = static_cast<unsigned long long>(P) <= imax<J>();
+    vf::label("convert.mapping_to_partner_index_type", fitsJ);
+    if (fitsJ) {
         typename L::template mapping<DJ> const c(m);
         EXT_IS("mapping<dextents<J>>(mapping<E>)", c.extents());
         bool const eq = c == m;
@@ -759,6 +762,10 @@ void check_lr(Case const& k, Shape const& sh)
         }
     }
     if constexpr (R <= 1) {
+        if (!fitsJ) {
+            vf::eval(sub);
+            return;
+        }
         using O = std::conditional_t<left, etl::layout_right, etl::layout_left>;
         typename O::template mapping<DJ> const o(m);
         EXT_IS("rank<=1 conversion to the other layout", o.extents());
@@ -897,9 +904,9 @@ void check_mdspan_lr(Case const& k, Shape const& sh)
         bool const ok = dm.data_handle() == nullptr && dm.size() == 0 && dm.empty();
         CHECK(sub, k, ok, "default-constructed mdspan: size() = %lld", static_cast<ll>(dm.size()));
     }
-    // converting constructor: element const, dextents<J>
-    {
-        using J  = typename partner<I>::type;
+    // converting constructor: element const, dextents<J> (precondition: the span size is representable in J)
+    using J = typename partner<I>::type;
+    if (static_cast<unsigned long long>(P) <= imax<J>()) {
         using MC = etl::mdspan<int const, etl::dextents<J, R>, L>;
         MC const c(m);
         REQUIRE_OK(facts_ok(sub, k, sh, st, R > 0, collect_facts(c, c.data_handle(), base, R > 0), "mdspan<T const, dextents<J>>(mdspan)"));
